@@ -1,9 +1,11 @@
 \* Project.tla as the PINNED TREE behaves (Dev = all named deviations): prints every labelled edge of the
 \* projected state graph (-workers 1, ACTION_CONSTRAINT EmitEdge, CONSTRAINT EmitInit) for replay into the real
 \* generator; quick tier of C19. 2 resolver fields (Query.f1, T.g) x 2 schema files x 2 edit records (b1 + directive
-\* doc + named / b2c) x helper {hc} x imports {alias, asfx, arsv} used by f1 x both resolver layouts, start = generated
-\* project with both fields in a.graphqls, histories <= 3.
-\* Measured: 1 104 states, 2 709 edges (212 Generate edges), 6 s.
+\* doc + named / b2c) x helpers {hc, hr = method on the root resolver struct} x imports {alias, asfx, arsv} used by f1 x
+\* root struct customisation {rf} x both resolver layouts, start = generated project with both fields in a.graphqls,
+\* histories <= 3.
+\* Measured: 1 939 states, 4 878 edges, 4 035 covering histories -> prefix tree 5 217 edges, 311 Generate runs, 9 s
+\* (before root struct / hr: 1 315 states, 3 341 edges, 243 Generate runs).
 INIT Init
 NEXT Next
 CONSTANTS
